@@ -388,6 +388,7 @@ ALLOWED_WRITERS = {
     'revm::handler::mainnet::post_execution::reimburse_caller': 'tx level, after the last frame',
     'revm::handler::mainnet::post_execution::reward_beneficiary': 'tx level, after the last frame',
     'revm_primitives::env::Env::validate_tx_against_state': 'balance top-up under cfg.disable_balance_check (test/dev feature)',
+    'revm::optimism::handler_register::validate_tx_against_state': 'balance top-up under cfg.disable_balance_check (test/dev feature)',
     'revm::optimism::handler_register::deduct_caller': 'optimism tx level',
     'revm::optimism::handler_register::reimburse_caller': 'optimism tx level',
     'revm::optimism::handler_register::reward_beneficiary': 'optimism tx level',
@@ -439,6 +440,24 @@ def check_recorded_values(fx, rep):
             rep.ok('R5-recorded-value', name, what)
 
 
+def topup_guarded(fx, f):
+    """every store to `.info.balance` in f is dominated by the true edge of is_balance_check_disabled()"""
+    from cfg import guards_of
+    og = Origins(f, fx)
+    for b in f.blocks:
+        if b.cleanup:
+            continue
+        for s_ in b.stmts:
+            if s_.kind == 'assign' and tuple(s_.place.pr[-2:]) == ('.info', '.balance'):
+                ok = False
+                for gd in guards_of(f, og, b.i):
+                    if gd.truth() is True and any(o.root[0] == 'call' and o.root[1].endswith('is_balance_check_disabled') for o in gd.discr):
+                        ok = True
+                if not ok:
+                    return False
+    return True
+
+
 def check_writers(ctx, rep):
     cfgs = ['default'] if ctx.tier == 'quick' else ['default', 'optimism']
     seen = set()
@@ -480,7 +499,9 @@ def check_writers(ctx, rep):
             seen.add(base)
             rep.fn(f)
             key = base.split('::')[-1]
-            if base in ALLOWED_WRITERS:
+            if base in ALLOWED_WRITERS and base.endswith('validate_tx_against_state') and not topup_guarded(fx, f):
+                rep.violation('R4-writers', key, '%s writes the caller balance on a path that is not under cfg.is_balance_check_disabled()' % base, f.where())
+            elif base in ALLOWED_WRITERS:
                 rep.ok('R4-writers', key, ALLOWED_WRITERS[base], nontrivial=False)
             else:
                 rep.violation('R4-writers', key, '%s writes account%s of the journaled state outside journaled_state.rs without a journal entry' % (base, hit), f.where())
